@@ -269,7 +269,7 @@ def _corpus_preemptions(mod, tier, shard, nshards, col):
                     col.stats['single_preemptions'] = col.stats.get('single_preemptions', 0) + 1
         # delay injection: the thread that is about to execute the line event with step number s is descheduled for
         # d virtual seconds (only for checks whose oracle does not measure promptness: opt-in through 'stalls')
-        if cfg.get('stalls'):
+        if cfg.get('stalls') and (cfg.get('stall_filter') is None or cfg['stall_filter'](base)):
             ns = int(res.stats.get('steps', 0))
             for step in range(1, min(ns + 2, cfg.get('max_steps', {'quick': 700, 'thorough': 4000})[tier])):
                 for dur in cfg['stalls']:
